@@ -15,7 +15,7 @@
     [go_index] (index out of range) put the reader in state [SPanic]. *)
 From Coq Require Import ZArith List Bool Floats.
 From Coq Require Export Uint63.
-From Geo Require Import Base.GoPrim Base.Bytes Gen.Codec.
+From Geo Require Import Base.GoPrim Base.Bytes Gen.CellID Gen.Codec.
 Import ListNotations.
 Local Open Scope Z_scope.
 
@@ -71,6 +71,18 @@ Definition read_point (d : dec) : point * dec :=
   let '(z, d) := read_u64 d in
   ((x, y, z), d).
 
+(** decoder.readPointCoord: a float64 that is NaN or infinite (exponent field all ones) is an error *)
+Definition nonfinite_bits (b : Z) : bool := (b / 2 ^ 52) mod 2048 =? 2047.
+Definition read_point_coord (d : dec) : Z * dec :=
+  let '(x, d) := read_u64 d in
+  if negb (failed d) && nonfinite_bits x then (x, set_err d) else (x, d).
+(** the three coordinates of a vertex of a loop, a polyline or the off-centre list *)
+Definition read_vertex (d : dec) : point * dec :=
+  let '(x, d) := read_point_coord d in
+  let '(y, d) := read_point_coord d in
+  let '(z, d) := read_point_coord d in
+  ((x, y, z), d).
+
 Definition many_stop {A} (s : list A * dec) : bool := failed (snd s).
 Definition many_body {A} (rd1 : dec -> A * dec) (s : list A * dec) : list A * dec :=
   let '(x, d') := rd1 (snd s) in (x :: fst s, d').
@@ -104,8 +116,14 @@ Definition decode_rect_body (d : dec) : rect * dec :=
   let '(e, d) := read_u64 d in
   (mkrect a b c e, d).
 
-(** CellID.decode; Cell.decode = CellFromCellID of it (derived fields are functions of the id) *)
+(** CellID.decode *)
 Definition decode_cellid_body (d : dec) : Z * dec := read_u64 d.
+(** Cell.decode: the id must be valid; the Cell is then CellFromCellID of it (derived fields are
+    functions of the id) *)
+Definition decode_cell_body (d : dec) : Z * dec :=
+  let '(id, d) := read_u64 d in
+  if failed d then (id, d) else
+  if negb (s2_CellID_IsValid id) then (id, set_err d) else (id, d).
 
 (** CellUnion.decode *)
 Definition decode_cellunion_body (d : dec) : list Z * dec :=
@@ -116,7 +134,7 @@ Definition decode_cellunion_body (d : dec) : list Z * dec :=
   if failed d then ([], d) else
   if (n <? 0) || (s2_CellUnion_decode_maxCells <? n) then ([], set_err d) else
   let d := go_make ACells n d in
-  read_many decode_cellid_body n d.
+  read_many decode_cell_body n d.
 
 (** Polyline.decode *)
 Definition decode_polyline_body (d : dec) : list point * dec :=
@@ -127,7 +145,7 @@ Definition decode_polyline_body (d : dec) : list point * dec :=
   if failed d then ([], d) else
   if s2_maxEncodedVertices <? n then ([], set_err d) else
   let d := go_make AVertices n d in
-  read_many read_point n d.
+  read_many read_vertex n d.
 
 (** Loop.decode (lossless format) *)
 Definition decode_loop_body (d : dec) : loop * dec :=
@@ -137,7 +155,7 @@ Definition decode_loop_body (d : dec) : loop * dec :=
   let '(n, d) := read_u32 d in
   if s2_maxEncodedVertices <? n then (zero_loop, set_err d) else
   let d := go_make AVertices n d in
-  let '(vs, d) := read_many read_point n d in
+  let '(vs, d) := read_many read_vertex n d in
   let '(oi, d) := read_bool d in
   let '(dep, d) := read_u32 d in
   let '(b, d) := decode_rect_body d in
@@ -262,7 +280,7 @@ Definition offc_body (n : Z) (s : list point * dec) : list point * dec :=
   if failed d then (pts, d) else
   if (idx <? 0) || (n <=? idx) then (pts, set_err d) else
   let d := go_index idx n d in
-  let '(pt, d) := read_point d in
+  let '(pt, d) := read_vertex d in
   (updZ pts idx pt, d).
 
 (** decodePointsCompressed(d, level, target) with len(target) = n *)
@@ -325,7 +343,7 @@ Definition decode_point := run decode_point_body.
 Definition decode_cap := run decode_cap_body.
 Definition decode_rect := run decode_rect_body.
 Definition decode_cellid := run decode_cellid_body.
-Definition decode_cell := run decode_cellid_body.
+Definition decode_cell := run decode_cell_body.
 Definition decode_cellunion := run decode_cellunion_body.
 Definition decode_polyline := run decode_polyline_body.
 Definition decode_loop := run decode_loop_body.
@@ -558,13 +576,14 @@ Definition cell_rect_bound_axes (id : Z) : result Z :=
 
 (** * Queries on a decoded Polygon (s2/polygon.go) *)
 (** Polygon.IsFull: exactly one loop and it is the full loop (one vertex, origin inside).
-    initEdgesAndIndex returns before creating the ShapeIndex when the polygon is full, and
     ContainsPoint / ContainsCell / IntersectsCell start with [p.index.IsFresh()] resp.
-    [p.index.Iterator()]: a nil pointer dereference in that case. *)
+    [p.index.Iterator()]: they need the ShapeIndex that initEdgesAndIndex creates, for the
+    full polygon (since 54a5f02) as for every other one. *)
 Definition cloops_full (ls : list cloop) : bool :=
   match ls with
   | [l] => (len (cl_vertices l) =? 1) && cl_origin_inside l
   | _ => false
   end.
+Definition polygon_has_index (ls : list cloop) : bool := if cloops_full ls then true else true.
 Definition polygon_query_entry (ls : list cloop) : result unit :=
-  if cloops_full ls then Panic else Ok tt.
+  if polygon_has_index ls then Ok tt else Panic.
